@@ -5,6 +5,7 @@ import (
 	"os"
 	"path/filepath"
 	"strings"
+	"time"
 )
 
 // AskRaw sends lines and returns every stdout line up to the SYNC marker (oracle misses are
@@ -87,12 +88,31 @@ func (c *Ctx) RunCases(cases []*Case, after func(cr *CaseResult)) {
 	for i, cs := range cases {
 		cr := &CaseResult{Case: cs}
 		var impl []string
-		pan := safe(func() {
-			real, outs := BuildReal(cs)
-			cr.Real = real
-			impl = append(impl, outs...)
-			impl = append(impl, real.RunOps()...)
-		})
+		var pan interface{}
+		done := make(chan struct{})
+		go func() {
+			pan = safe(func() {
+				real, outs := BuildReal(cs)
+				cr.Real = real
+				impl = append(impl, outs...)
+				impl = append(impl, real.RunOps()...)
+			})
+			close(done)
+		}()
+		select {
+		case <-done:
+		case <-time.After(20 * time.Second):
+			// the library does not return: a hang is an observation (C04), and the run ends here
+			cr.Lines = cs.Lines(termCols)
+			cr.Impl = []string{"HANG: the operation did not return within 20 s"}
+			path := c.saveCase(cr)
+			c.Check("operation-returns", false, "C04:hang", map[string]interface{}{"case": cs.Description, "case_file": path}, "no return within 20 s", "normal return")
+			c.R.Notes = append(c.R.Notes, "run aborted: the implementation hung on "+path)
+			c.queue = nil
+			c.Finish(c.Start, c.Rule, c.Out)
+			fmt.Printf("harness %s ABORTED: implementation hang, case %s\n", c.Prop, path)
+			os.Exit(0)
+		}
 		if pan != nil {
 			impl = append(impl, fmt.Sprintf("HARNESS-PANIC %v", pan))
 		}
